@@ -571,7 +571,8 @@ def evaluate_z3_str_to_code(
 
     return Some(
         construct_result(
-            lambda args: ord(args[0]),
+            # SMT-LIB: (str.to_code s) is -1 if s is not a single character.
+            lambda args: ord(args[0]) if len(args[0]) == 1 else -1,
             children_results,
         )
     )
